@@ -88,6 +88,7 @@ class Path:
         self.notes = []
         self.depth = 0
         self.unknown_feas = 0
+        self.const_subst = []
 
     def fresh_name(self, base):
         return '%s!%d' % (base, next(self.counter))
@@ -116,7 +117,10 @@ class Path:
         self.solver.add(t)
 
     def feasible(self, cond):
-        r = self.solver.check(cond)
+        try:
+            r = self.solver.check(cond)
+        except z3.Z3Exception:
+            r = z3.unknown
         if r == z3.unknown:
             self.unknown_feas += 1
         return r != z3.unsat
@@ -366,11 +370,44 @@ class Interp:
     def call_spec(self, name, *args):
         return self.call_spec_function(self.reg.spec_functions[name], list(args))
 
-    def pow2(self, n):
+    def pow2(self, n, fr=None):
+        n = z3.simplify(n)
+        if not is_int_const(n) and fr is not None and not fr.spec and self.implied(z3.And(n >= 0, n <= 8)):
+            # small-domain concretisation: shift counts / bit positions inside one octet are enumerated
+            k = self.path.choose(9, 'pow2small')
+            self.path.assume(n == k)
+            self.path.const_subst.append((n, z3.IntVal(k)))
+            if not self.path.feasible(z3.BoolVal(True)):
+                raise PathEnd()
+            self._pow2_consts = getattr(self, '_pow2_consts', {})
+            return z3.IntVal(1 << k)
+        if not is_int_const(n):
+            c = self.try_const(n)
+            if c is not None:
+                n = z3.IntVal(c)
         if is_int_const(n):
             k = n.as_long()
-            return z3.IntVal(1 << k) if k >= 0 else z3.IntVal(0)
+            return z3.IntVal(1 << k) if k >= 0 else z3.IntVal(1)
         return self.as_int(self.call_spec('pow2', VInt(n)))
+
+    def try_const(self, t):
+        """if the path condition fixes the integer term t to one small value, return it"""
+        if self.path.const_subst:
+            t2 = z3.simplify(z3.substitute(t, *self.path.const_subst))
+            if z3.is_int_value(t2):
+                return t2.as_long()
+        try:
+            s = self.path.solver
+            if s.check() != z3.sat:
+                return None
+            v = s.model().eval(t, model_completion=True)
+            if not z3.is_int_value(v) or abs(v.as_long()) > 4096:
+                return None
+            if s.check(t != v) == z3.unsat:
+                return v.as_long()
+        except z3.Z3Exception:
+            pass
+        return None
 
     # ----------------------------------------------------------------- names
     def force(self, v):
@@ -397,6 +434,15 @@ class Interp:
         r = self.prog.resolve(fr.module, name) if fr.module is not None else None
         if r is None and fr.spec and fr.func is not None and getattr(fr, 'target_module', None):
             r = self.prog.resolve(fr.target_module, name)
+        if r is None and fr.spec:
+            # clauses inherited through refines() are written against the base contract's module
+            for rel in ('asn1tools/codecs/ber.py', 'asn1tools/codecs/per.py', 'asn1tools/codecs/__init__.py'):
+                try:
+                    r = self.prog.resolve(self.prog.module_by_relpath(rel), name)
+                except KeyError:
+                    r = None
+                if r is not None:
+                    break
         if r is not None:
             return self.global_value(r)
         if name in ('len', 'int', 'bytearray', 'bytes', 'isinstance', 'range', 'sum', 'max', 'min',
@@ -576,7 +622,10 @@ class Interp:
             return True
         if z3.is_false(c):
             return False
-        return self.path.solver.check(z3.Not(c)) == z3.unsat
+        try:
+            return self.path.solver.check(z3.Not(c)) == z3.unsat
+        except z3.Z3Exception:
+            return False
 
     def norm_index(self, i, n):
         """python slice-bound normalisation (clamped); simplified under the path condition"""
@@ -853,6 +902,16 @@ class Interp:
             raise OutOfSubset('float op')
         if self.is_intlike(a) and self.is_intlike(b):
             x, y = self.as_int(a), self.as_int(b)
+            if is_int_const(x) and is_int_const(y) and isinstance(op, (ast.LShift, ast.RShift, ast.FloorDiv, ast.Mod)):
+                xv, yv = x.as_long(), y.as_long()
+                if isinstance(op, ast.LShift) and 0 <= yv < 100000:
+                    return VInt(xv << yv)
+                if isinstance(op, ast.RShift) and yv >= 0:
+                    return VInt(xv >> yv)
+                if isinstance(op, ast.FloorDiv) and yv > 0:
+                    return VInt(xv // yv)
+                if isinstance(op, ast.Mod) and yv > 0:
+                    return VInt(xv % yv)
             if isinstance(op, ast.Add):
                 return VInt(x + y)
             if isinstance(op, ast.Sub):
@@ -878,12 +937,12 @@ class Interp:
                 self.check_shift(y, fr)
                 if is_int_const(y):
                     return VInt(x * z3.IntVal(1 << y.as_long()))
-                return VInt(x * self.pow2(y))
+                return VInt(x * self.pow2(y, fr))
             if isinstance(op, ast.RShift):
                 self.check_shift(y, fr)
                 if is_int_const(y):
                     return VInt(x / z3.IntVal(1 << y.as_long()))
-                return VInt(x / self.pow2(y))
+                return VInt(x / self.pow2(y, fr))
             if isinstance(op, ast.BitAnd):
                 return VInt(self.bitand(x, y, node, fr))
             if isinstance(op, ast.BitOr):
@@ -891,7 +950,8 @@ class Interp:
             if isinstance(op, ast.BitXor):
                 if is_int_const(x) and is_int_const(y):
                     return VInt(x.as_long() ^ y.as_long())
-                return VInt(self.as_int(self.call_spec('bxor', VInt(x), VInt(y))))
+                # x ^ y == x + y - 2*(x & y) for all integers
+                return VInt(x + y - 2 * self.bitand(x, y, node, fr))
             if isinstance(op, ast.Pow):
                 if is_int_const(x) and x.as_long() == 2:
                     if not fr.spec and not (is_int_const(y) and y.as_long() >= 0):
@@ -944,6 +1004,7 @@ class Interp:
             self.raise_builtin('ValueError', 'negative shift count')
 
     def bitand(self, x, y, node, fr):
+        x, y = z3.simplify(x), z3.simplify(y)
         if is_int_const(x) and is_int_const(y):
             return z3.IntVal(x.as_long() & y.as_long())
         if is_int_const(y) and y.as_long() >= 0:
@@ -983,6 +1044,7 @@ class Interp:
         return None
 
     def bitor(self, x, y, fr):
+        x, y = z3.simplify(x), z3.simplify(y)
         if is_int_const(x) and is_int_const(y):
             return z3.IntVal(x.as_long() | y.as_long())
         if is_int_const(y) and y.as_long() >= 0:
@@ -1148,6 +1210,10 @@ class Interp:
             return VStr(self.path.fresh_str('fmt'))
         if self.reg.is_spec_module(func.module):
             contract = self.reg.lemmas[func.name][1]
+        elif self.current_contract is not None and func.name in self.current_contract.use_abstract:
+            contract = self.reg.abstract_contract_for(func)
+            if contract is None:
+                raise OutOfSubset('use_abstract(%s): no abstract contract found' % func.name)
         else:
             contract = self.reg.contract_for(func, self_cls)
         if contract is not None and not contract.inline and \
@@ -1184,6 +1250,11 @@ class Interp:
     # -- spec functions ---------------------------------------------------------
     def call_spec_function(self, func, args, kwargs=None):
         kwargs = kwargs or {}
+        if func.name == 'pow2' and len(args) == 1 and isinstance(args[0], VInt) and not is_int_const(args[0].t) \
+                and not getattr(self, '_in_pow2', False):
+            c = self.try_const(args[0].t)
+            if c is not None:
+                return VInt(1 << c if c >= 0 else 1)
         prim = self.reg.primitive(func.name)
         if prim is not None:
             r = prim(self, *args)
@@ -1839,6 +1910,13 @@ class Interp:
         r = self.prog.resolve(module, name)
         if r and r[0] == 'class':
             return r[1]
+        for rel in ('asn1tools/codecs/ber.py', 'asn1tools/codecs/per.py', 'asn1tools/codecs/__init__.py'):
+            try:
+                r = self.prog.resolve(self.prog.module_by_relpath(rel), name)
+            except KeyError:
+                r = None
+            if r and r[0] == 'class':
+                return r[1]
         for m in self.prog.modules.values():
             if name in m.classes:
                 return m.classes[name]
